@@ -268,11 +268,50 @@ def impl_log(case):
         S.remove(c[0])
         t = buildRemainingTreeAsLists(c[0], S, WOLosers, IRVElims)
         ct = canon_py(t)
+        tup = treeListToTuple(t)
         alts.append({"alt": c[0], "tree": ct, "unpruned": has_unpruned(ct),
-                     "marker": "***Unpruned leaf" in repr(treeListToTuple(t))})
+                     "marker": "***Unpruned leaf" in repr(tup), "render": render_mismatch(t, tup)})
     mine = [a for a in alts if a["alt"] == case["alt"]]
     return {"st": "ok", "winner": winner, "winner_name": wname, "nonwinners": [[c[0], c[1]] for c in nonw],
             "tree": mine[0]["tree"] if mine else None, "unpruned": mine[0]["unpruned"] if mine else None, "alts": alts}
+
+
+def render_mismatch(t, tup):
+    """walk the list-form tree and the tuple `treeListToTuple` rendered from it in parallel: a pruned leaf must be
+    shown with exactly the NEB numbers and exactly the IRV numbers it is tagged with (each group with its own
+    confirmation status = any of its flags), an untagged leaf with the unpruned-leaf marker and nothing else.
+    Returns a description of the first mismatch or None.  (Only numbers, the words Confirmed / Unconfirmed and the
+    marker are read: the layout of the tag text is not part of the property.)"""
+    import re
+    if len(t) == 1:
+        n = t[0]
+        if not (isinstance(tup, tuple) and len(tup) == 2 and tup[0] == n.cand and isinstance(tup[1], str)):
+            return f"leaf {n.cand}: rendered as {tup!r}"
+        tag = tup[1]
+        marker = "***Unpruned leaf" in tag
+        shown = {}
+        for kind in ("NEB", "IRV"):
+            m = re.search(kind + r"\s+([0-9][0-9,\s]*)", tag)
+            shown[kind] = [int(x) for x in re.findall(r"[0-9]+", m.group(1))] if m else []
+        want = {"NEB": [int(a) for a, _ in n.NEBTagList], "IRV": [int(a) for a, _ in n.IRVTagList]}
+        if shown != want:
+            return (f"leaf {n.cand}: tag shows NEB {shown['NEB']} / IRV {shown['IRV']} but the node is tagged "
+                    f"NEB {want['NEB']} / IRV {want['IRV']}")
+        if marker != (not want["NEB"] and not want["IRV"]):
+            return f"leaf {n.cand}: unpruned-leaf marker shown = {marker}, tags NEB {want['NEB']} / IRV {want['IRV']}"
+        stat = re.findall(r"Unconfirmed|Confirmed", tag)
+        wstat = [("Confirmed" if any(bool(b) for _, b in lst) else "Unconfirmed")
+                 for lst in (n.NEBTagList, n.IRVTagList) if lst]
+        if stat != wstat:
+            return f"leaf {n.cand}: confirmation shown {stat}, tags require {wstat}"
+        return None
+    if not (isinstance(tup, tuple) and len(tup) == 1 + len(t[1]) and tup[0] == t[0]):
+        return f"node {t[0]}: rendered with {len(tup) - 1 if isinstance(tup, tuple) else '?'} branches, tree has {len(t[1])}"
+    for k, sub in zip(t[1], tup[1:]):
+        r = render_mismatch(k, sub)
+        if r:
+            return r
+    return None
 
 
 def canon_py(t):
@@ -301,12 +340,12 @@ def has_unpruned(t):
 def impl(case):
     if case.get("kind") == "log":
         return impl_log(case)
-    from shangrla.core.IRVVisualisationUtils import buildRemainingTreeAsLists
+    from shangrla.core.IRVVisualisationUtils import buildRemainingTreeAsLists, treeListToTuple
     wo = [(l, w, p) for l, w, p in case["wo"]]
     irv = [(x, set(E), p) for x, E, p in case["irv"]]
     t = buildRemainingTreeAsLists(case["c"], set(case["S"]), wo, irv)
     ct = canon_py(t)
-    return {"st": "ok", "tree": ct, "unpruned": has_unpruned(ct)}
+    return {"st": "ok", "tree": ct, "unpruned": has_unpruned(ct), "render": render_mismatch(t, treeListToTuple(t))}
 
 
 def request(case):
@@ -381,7 +420,10 @@ def oracle_c20(case, ir):
         return oracle_log(case, ir)
     if ir.get("st") != "ok":
         return {"what": f"tree construction raised {ir.get('err')}"}
-    return check_tree(case["c"], case["S"], case["wo"], case["irv"], ir["tree"], ir["unpruned"])
+    r = check_tree(case["c"], case["S"], case["wo"], case["irv"], ir["tree"], ir["unpruned"])
+    if r is None and ir.get("render"):
+        return {"what": "the displayed tree (treeListToTuple) does not show the tags of the tree: " + ir["render"]}
+    return r
 
 
 def oracle_log(case, ir):
@@ -408,6 +450,9 @@ def oracle_log(case, ir):
         if a["marker"] != a["unpruned"]:
             return {"what": f"contest {sel['id']}, alternative winner {alt}: rendered tree "
                             f"{'shows' if a['marker'] else 'lacks'} the ***Unpruned leaf marker, tree has unpruned leaf = {a['unpruned']}"}
+        if a.get("render"):
+            return {"what": f"contest {sel['id']}, alternative winner {alt}: the displayed tree does not show the tags "
+                            f"of the tree: " + a["render"]}
     return None
 
 
